@@ -164,7 +164,7 @@ Proof. apply nth_error_map. Qed.
 (** One step: the model commutes with the specification and keeps the invariant. *)
 Theorem step_refines w o : WF w -> op_ok o -> abs (step w o) = astep (abs w) o /\ WF (step w o).
 Proof.
-  intros [Hp Hs] Ho. destruct o as [sid c now|sid| |sid off|sid|]; cbn [step astep].
+  intros [Hp Hs] Ho. destruct o as [sid c now|sid|sid| |sid off|sid|]; cbn [step astep].
   - (* Add *)
     destruct Ho as [Hnh Hts]. unfold abs; cbn [file sessions tsflag afile asess ats].
     split.
@@ -194,6 +194,7 @@ Proof.
       * rewrite ipend_app, Hp. exact Hpe.
       * apply Forall_update_nth; [exact Hs|]. intros x Hx. unfold hflush, mark_saved; cbn [items].
         rewrite Forall_map. eapply Forall_impl; [|exact Hx]. intros it Hi. exact Hi.
+  - (* SaveFail *) split; [reflexivity|split; assumption].
   - (* NewSession *)
     destruct (import_fold (file w) empty_hist None) as (H1 & H2 & H3). cbv zeta in *.
     split.
